@@ -152,6 +152,31 @@ def twin(rng, ctx) -> None:
                           {"twin": True, "cfgs": [list(c) for c in cfgs], "chunks": [list(c) for c in chunk_lists], "order": order, "sent": [[fr for fr, _ in m[1]] for m in made]})
 
 
+def header_only(cfg, stream, spec, sent, ctx) -> None:
+    """A caller that keeps only frame.header of every delivered frame must still read the exact header fields."""
+    import gc
+
+    reader = hdlc_mon.new_reader(cfg)
+    headers = []
+    for ch in splits.chunks(stream, spec):
+        headers += [f.header for f in reader.read(ch) if f is not hdlc_mon.POISON]
+    gc.collect()
+    ctx.count("header_only_executions")
+    case = {"cfg": list(cfg), "stream": stream, "split": list(spec), "sent": [f for f, _ in sent], "header_only": True}
+    if len(headers) != len(sent):
+        return  # the frame list itself is judged by compare()
+    for i, (h, (fr, d)) in enumerate(zip(headers, sent)):
+        for attr, want in (("destination_address", d["dst"]), ("source_address", d["src"]), ("control", d["ctrl"]), ("frame_length", len(fr)), ("frame_format_type", d["type"]), ("segmentation", d["seg"])):
+            try:
+                got = getattr(h, attr)
+            except Exception as ex:
+                ctx.violation(f"C02:field:header-after-frame-dropped:{type(ex).__name__}", f"frame #{i}: header.{attr} raised {ex!r} once the caller no longer held the frame", case)
+                return
+            if got != want:
+                ctx.violation("C02:field:header-after-frame-dropped:value", f"frame #{i}: header.{attr} = {got!r} after the frame was dropped, sent {want!r}", case)
+                return
+
+
 def run(shard: dict, ctx) -> None:
     rng = ctx.rng("c02", shard["kind"])
     if shard["kind"] == "allsplits":
@@ -182,6 +207,8 @@ def run(shard: dict, ctx) -> None:
             specs += [("single", c) for c in range(1, len(stream))]
         for spec in specs:
             compare(cfg, stream, spec, sent, ctx)
+        if i % 4 == 0 and len(stream) < 5000:
+            header_only(cfg, stream, specs[-1], sent, ctx)
         ctx.case(bytes(cfg) + stream, True, len(specs))
         ctx.count(f"streams_cfg{int(cfg[0])}{int(cfg[1])}")
         for _ in range(3):
@@ -193,6 +220,13 @@ def run(shard: dict, ctx) -> None:
 def replay(case: dict, ctx) -> None:
     from vf.ref import hdlc_ref
 
+    if case.get("header_only"):
+        sent = []
+        for fr in case["sent"]:
+            f = hdlc_ref.parse(fr)
+            sent.append((fr, {"info": f.info or b"", "dst": f.destination, "src": f.source, "ctrl": f.control, "type": f.format_type, "seg": f.segmentation}))
+        header_only(tuple(case["cfg"]), case["stream"], tuple(case["split"]), sent, ctx)
+        return
     if case.get("twin"):
         readers = [hdlc_mon.new_reader(tuple(c)) for c in case["cfgs"]]
         got = [[], []]
